@@ -483,6 +483,62 @@ type c12Input struct {
 	Ref  string `json:"ref"`
 	Base string `json:"base"`
 	Hop2 string `json:"hop2,omitempty"` // two-hop form: Ref leads from the root at Base into a document whose own reference is Hop2
+	Pair string `json:"pair,omitempty"` // pair form: a second, absolute reference used in the same expansion (another document)
+}
+
+// checkC12Pair: two references of one document, used in one expansion: Ref (located from Base) and the absolute reference Pair,
+// which designates ANOTHER document (its location differs from the first one's by the scheme, the port or a query).  Absolute
+// references are used as they are: the loader is asked for both locations and each schema comes from its own document.
+func checkC12Pair(in c12Input) (msg, shape string, obs, exp interface{}) {
+	defer func() {
+		if r := recover(); r != nil {
+			msg, shape = fmt.Sprintf("expansion panics: %v", r), "panic"
+		}
+	}()
+	t1, ok1 := c12Resolve(in.Base, in.Ref)
+	t2, ok2 := c12Resolve(in.Base, in.Pair)
+	if !ok1 || !ok2 || t1 == t2 || t1 == normUnreserved(in.Base) || t2 == normUnreserved(in.Base) {
+		return
+	}
+	doc := func(who string) string { return `{"definitions":{"y":{"type":"string","description":"` + who + `"}}}` }
+	root := `{"type":"object","properties":{"a":{"$ref":"` + in.Ref + `#/definitions/y"},"b":{"$ref":"` + in.Pair + `#/definitions/y"}}}`
+	for _, order := range []string{"ab", "ba"} {
+		text := root
+		if order == "ba" {
+			text = `{"type":"object","properties":{"a":{"$ref":"` + in.Pair + `#/definitions/y"},"b":{"$ref":"` + in.Ref + `#/definitions/y"}}}`
+		}
+		asked := map[string]bool{}
+		loader := func(u string) (json.RawMessage, error) {
+			k := normUnreserved(stripFragment(u))
+			asked[k] = true
+			switch k {
+			case t1:
+				return json.RawMessage(doc("first")), nil
+			case t2:
+				return json.RawMessage(doc("second")), nil
+			}
+			return nil, fmt.Errorf("no document at %s", u)
+		}
+		sch := new(spec.Schema)
+		if err := json.Unmarshal([]byte(text), sch); err != nil {
+			return
+		}
+		if err := spec.ExpandSchemaWithBasePath(sch, nil, &spec.ExpandOptions{RelativeBase: in.Base, PathLoader: loader}); err != nil {
+			return "expansion fails although both RFC 3986 targets are served", "e2e-pair", err.Error(), []string{t1, t2}
+		}
+		if !asked[t1] || !asked[t2] {
+			return "two references that designate different documents: the loader is not asked for both locations", "e2e-pair", fmt.Sprint(asked), []string{t1, t2}
+		}
+		out, _ := json.Marshal(sch)
+		want := `"a":{"description":"first"`
+		if order == "ba" {
+			want = `"a":{"description":"second"`
+		}
+		if !strings.Contains(string(out), want) || !strings.Contains(string(out), `"first"`) || !strings.Contains(string(out), `"second"`) {
+			return "two references that designate different documents: a schema does not come from the document its reference designates", "e2e-pair", string(out), []string{t1, t2}
+		}
+	}
+	return
 }
 
 // c12Resolve: RFC 3986 reference resolution, by net/url.
@@ -559,6 +615,9 @@ func checkC12TwoHop(in c12Input) (msg, shape string, obs, exp interface{}) {
 func checkC12(in c12Input) (msg, shape string, obs, exp interface{}) {
 	if in.Hop2 != "" {
 		return checkC12TwoHop(in)
+	}
+	if in.Pair != "" {
+		return checkC12Pair(in)
 	}
 	defer func() {
 		if r := recover(); r != nil {
@@ -670,6 +729,21 @@ func oracleC12(r *rng, n int, tier string) *oracleResult {
 		for _, f := range firsts {
 			for _, h := range []string{"third.json", "sub/third.json", "../models/third.json", "/m/third.json"} {
 				try(c12Input{Ref: f, Base: b, Hop2: h})
+			}
+		}
+	}
+	// pairs: a second document whose location differs from the first one's by the scheme, the port or a query only
+	for _, b := range c12Bases {
+		for _, ref := range []string{"x.json", "../defs/x.json", "sub/x%20y.json", "http://o.example/defs/x.json", "https://o.example/defs/x.json"} {
+			t1, ok := c12Resolve(b, ref)
+			tu, err := url.Parse(t1)
+			if !ok || err != nil || (tu.Scheme != "http" && tu.Scheme != "https") || tu.Host == "" {
+				continue
+			}
+			other := map[string]string{"http": "https", "https": "http"}[tu.Scheme]
+			host := tu.Hostname()
+			for _, pair := range []string{other + "://" + tu.Host + tu.EscapedPath(), tu.Scheme + "://" + host + ":8080" + tu.EscapedPath(), t1 + "?rev=2"} {
+				try(c12Input{Ref: ref, Base: b, Pair: pair})
 			}
 		}
 	}
